@@ -143,11 +143,13 @@ def space(tier):
     def ids_fn(j, rng):
         rid = j % 256
         n = [0, 1, 2, 3, 5, 12, 21, 40][(j // 256) % 8]
-        version = 2 + (j // 2048) % 2
-        opname = OPS[(j // 4096) % len(OPS)]
+        version = rng.choice([2, 3])
+        opname = rng.choice(OPS)
         return {"config": cfg(version), "target": opname, "which": rng.randrange(NREQ[opname]),
                 "app": {"base": "random", "edit": [["rand", n, j], ["id", rid]] + ([["ftype", rng.choice([2, 3, 4, 5])]] if rng.random() < 0.3 else []),
-                        "place": "alone" if version == 2 else rng.choice(["alone", "before_good", "after_good"])}}
+                        # (a random body under the state id is a decodable state frame: never after the good one)
+                        "place": "alone" if version == 2 else rng.choice(
+                            ["alone", "before_good"] if rid == 0xC0 else ["alone", "before_good", "after_good"])}}
     sp.add("ids_all", 256 * 8 * (1 if tier == "quick" else 10), ids_fn, exhaustive=True)
 
     # --- count / size fields
